@@ -1,5 +1,6 @@
 import DigModel.Proofs.Group
 import DigModel.Proofs.GroupCalled
+import DigModel.Proofs.Just2Api
 /-
   C10 — Value groups deliver every visible member exactly once (undecorated hard groups), and
   C11's counterpart for soft groups lives in Props/C11.lean; both rest on `buildGroup_undecorated`.
@@ -15,6 +16,11 @@ import DigModel.Proofs.GroupCalled
     path has been built (`called`) — none is skipped — so the stores read by `C10_members` hold the members of
     all of them; `C10_failure_is_group_failure`: if one of them fails, the parameter fails with
     `errParamGroupFailed` wrapping that failure.
+  * `C10_members_are_feeders_outputs` (whole programs, invariant `Just2`): in every reachable container every member
+    stored for group key `k` (element type + group name) in scope `S` was produced by a successful execution of a
+    built constructor whose home scope is `S` and whose results declare a value-group result for exactly that
+    key — it is that result's value, or one of its slice elements for a `flatten` result.  With `C10_members`:
+    members from sibling or descendant scopes, other group names or other element types never appear.
   "Exactly once however often requested" is C02_once (a built feeder is never executed again) together
   with the fact that committing happens only in a successful execution (C07_failed_writes_nothing).
 -/
@@ -52,7 +58,22 @@ theorem C10_failure_is_group_failure (ctx : Ctx) (fuel : Nat) (k : Key) (n : Nat
       (.error (.err (.paramGroup k (ctorId ctx.sameIds (st.ctor n).fn) e)), s') := by
   simp [EM.wrapErr, h]
 
+theorem C10_members_are_feeders_outputs (p : Program) (S : Nat) (k : Key) (v : Val)
+    (h : v ∈ agetL ((runProgram p).1.scope S).groups k) :
+    ∃ n slot decl fl, n < (runProgram p).1.ctors.length ∧ ((runProgram p).1.ctor n).s = S ∧
+      ((runProgram p).1.ctor n).called = true ∧ (k, slot, decl, fl) ∈ slotGroupLeaves ((runProgram p).1.ctor n).results ∧
+      ∃ ret : Ret, memberOf p.types ret slot decl fl v ∧
+        (ret.dry = false → ret.f = ((runProgram p).1.ctor n).fn.id ∧
+          Event.exit (.ctor n) ret.f ret.x .ok ∈ (runProgram p).1.hist) :=
+  (just2_program p).groups S k v h
+
+/-- non-vacuity (a test): the group keys of a flatten result and of a plain grouped result with an As interface -/
+example : slotGroupLeaves [.val (.grouped 0 31 11 "g" true []), .err, .val (.grouped 2 12 12 "h" false [21])] =
+    [({ ty := 11, name := "", group := "g" }, 0, 31, true), ({ ty := 12, name := "", group := "h" }, 2, 12, false),
+     ({ ty := 21, name := "", group := "h" }, 2, 12, false)] := by decide
+
 #print axioms C10_members
+#print axioms C10_members_are_feeders_outputs
 #print axioms C10_feeders_built
 #print axioms C10_failure_is_group_failure
 end Dig.C10
